@@ -225,8 +225,8 @@ func HarnessC07Request() {
 			_, okUnit := refUnit(timeout[len(timeout)-1])
 			num := timeout[:len(timeout)-1]
 			timeoutValid = okUnit && num != "" && allDigits(num)
-			if !timeoutValid && okUnit && len(num) > 1 && (num[0] == '+') && allDigits(num[1:]) {
-				return // "+5S": not classified by the property
+			if !timeoutValid && okUnit && len(num) > 1 && (num[0] == '+' || num[0] == '-') && allDigits(num[1:]) {
+				return // "+5S", "-0u": a leading sign is not classified by the property (see C10)
 			}
 		}
 		if proto == 0 && !timeoutValid && len(timeout) > 1 && (timeout[0] == '+' || timeout[0] == '-') && allDigits(timeout[1:]) {
